@@ -296,7 +296,7 @@ def observer_kinds(rng, a, rows, cols):
     if rng.random() < 0.6:
         a["observing"] = True
         a["view_range"] = rng.choice([0, 1, 1, 2, 3, "FULL", max(rows, cols) + 1]) if max(rows, cols) < 8 else \
-            rng.choice([1, 3, 6, 8, 9, 11, "FULL", max(rows, cols) + 2])              # big worlds: long views too
+            rng.choice([1, 3, 6, 8, 9, 11, 15, 16, "FULL", max(rows, cols) + 2])      # big worlds: long views too
     if rng.random() < 0.4:
         a["has_ammo"] = True
         a["init_ammo"] = rng.choice([0, 1, 2, 3, 4, 5, 9, 10, 11, 99, 100, 1000])
@@ -313,7 +313,14 @@ def make_earlier(rng, wdesc, oi):
     taken = {tuple(s["pos"]) for s in state if s["health"][0] > 0}
     empty = [(r, c) for r in range(rows) for c in range(cols) if (r, c) not in taken]
     rng.shuffle(empty)
-    movers = [oi] + rng.sample([i for i in range(len(state)) if i != oi], min(2, len(state) - 1))
+    # (half of the time the observer itself stays where it is and the blocking agents are the ones that stood
+    # elsewhere: only what it sees changes)
+    others = [i for i in range(len(state)) if i != oi]
+    if rng.random() < 0.5:
+        blockers = [i for i in others if wdesc["agents"][i].get("blocking")]
+        movers = blockers[:6] or rng.sample(others, min(2, len(others)))
+    else:
+        movers = [oi] + rng.sample(others, min(2, len(others)))
     moved = False
     for i in movers:
         if empty and state[i]["health"][0] > 0:
@@ -514,20 +521,48 @@ class ObsProp(core.Prop):
                         yield self._case(sess, wdesc, "stacked", True, oi, [], "pile")
                         self._flush_problems(sess, wdesc)
 
+        # C'. cells exactly on a bounding ray of a shadow: blocker at (a, b) seen from (0, 0), agents on (2a-1, 2b+1) and
+        #     (2a+1, 2b-1); such a cell is visible (strict comparison); floating point first errs at about range 15
+        for a_ in range(1, 10):
+            for b_ in range(1, 10):
+                rows, cols = 2 * a_ + 2, 2 * b_ + 2
+                ags = [dict(gridw.AG_DEFAULT, enc=1, observing=True, view_range="FULL"),
+                       dict(gridw.AG_DEFAULT, enc=2, blocking=True),
+                       dict(gridw.AG_DEFAULT, enc=3), dict(gridw.AG_DEFAULT, enc=3)]
+                st = [{"pos": [0, 0], "health": [1, 1], "ammo": 0, "orient": 1},
+                      {"pos": [a_, b_], "health": [1, 1], "ammo": 0, "orient": 1},
+                      {"pos": [2 * a_ - 1, 2 * b_ + 1], "health": [1, 1], "ammo": 0, "orient": 1},
+                      {"pos": [2 * a_ + 1, 2 * b_ - 1], "health": [1, 1], "ammo": 0, "orient": 1}]
+                wdesc = {"rows": rows, "cols": cols, "overlap": [], "agents": ags, "state": st}
+                try:
+                    sess = ObsSession(copy.deepcopy(wdesc))
+                except ValueError:
+                    continue
+                for kind, os_ in GRID_KINDS[:3]:
+                    yield self._case(sess, wdesc, kind, os_, 0, [0] * 40, "on-ray")
+                self._flush_problems(sess, wdesc)
+
         # D. random worlds, any agent (supported or not), any observer
         for _ in range(500 if quick else 12000):
-            wdesc = gridw.gen_world(rng, max_side=side, max_agents=8, kinds=observer_kinds, dead_prob=0.15)
+            wdesc = gridw.gen_world(rng, max_side=side, max_agents=8, kinds=observer_kinds, dead_prob=0.15,
+                                    big=rng.random() < 0.2)
             order = list(range(len(wdesc["agents"])))
             rng.shuffle(order)
             wdesc["place_order"] = order
             for ag, s in zip(wdesc["agents"], wdesc["state"]):      # legal vitals: ammo <= initial ammo
                 s["ammo"] = min(s["ammo"], ag["init_ammo"]) if ag["has_ammo"] else 0
+            watchers = [i for i, ag in enumerate(wdesc["agents"]) if ag.get("observing")]
+            focus = rng.choice(watchers) if watchers else rng.randrange(len(wdesc["agents"]))
+            if rng.random() < 0.6:
+                e = make_earlier(rng, wdesc, focus)      # the observer objects have seen an earlier state
+                if e is not None:
+                    wdesc["earlier"] = e
             try:
                 sess = ObsSession(copy.deepcopy(wdesc))
             except ValueError:
                 continue
-            for _ in range(4):
-                a = rng.randrange(len(wdesc["agents"]))
+            for k in range(4):
+                a = focus if k < 2 else rng.randrange(len(wdesc["agents"]))
                 kind, os_ = rng.choice(ALL_KINDS)
                 tape = [rng.randrange(50) for _ in range(rng.choice([0, 5, 60]))]
                 yield self._case(sess, wdesc, kind, os_, a, tape, "random")
